@@ -35,4 +35,16 @@ SPECS = {
             "assumptions": COMMON_ASSUME + ["values from {-1,0,1,2}; percentile p from a 0.5 grid plus rank boundaries"]},
     "C18": {"run": hist_bin("c18"), "replay": hist_replay("c18"), "technique": "exhaustive DFS over all operation histories up to a depth bound on the real structures, reference closure compared after every operation",
             "assumptions": COMMON_ASSUME + ["4 (and 5) elements; histories up to depth 6/7 (TrRelUnionFind), 5/6 (UnionFind)"]},
+    "C19": {"run": lambda prop, tier, seed: c19_run(prop, tier, seed), "replay": hist_replay("c19"),
+            "technique": "exhaustive DFS over all operation histories on every real index type vs a reference multimap (serial part); exhaustive interleavings under the vsched scheduler (concurrent part)",
+            "assumptions": COMMON_ASSUME + ["2 keys (same shard / different shards) x 2 values; depth 5 (6 thorough)"]},
 }
+
+
+def c19_run(prop, tier, seed):
+    cargo_build(ENGINES, ["--release", "-p", "hist", "--bin", "c19"])
+    reps = []
+    for cfg in ("same", "diff"):
+        reps.append(run_part("%s.serial-%s" % (prop, cfg), [os.path.join(REL, "c19")], tier, seed, env={"C19_KEYS": cfg}))
+        reps[-1]["part"] = "serial-keys-" + cfg
+    return reps
